@@ -64,6 +64,16 @@ let () = each_line (fun line ->
   match (match split_ws line with "T" :: r -> r | r -> r) with
   | cs :: lay :: rest ->
       let ops = List.map parse_op (split_ops rest [] []) in
-      let outs = run_case (n_of_string cs) (parse_layout lay) ops in
-      String.concat " | " (List.map show_out outs)
+      let layout = parse_layout lay in
+      (* whole-file dumps / per-piece listings are refused on both sides for layouts above 64 MiB
+         (sparse multi-GiB cases are compared through P windows) *)
+      let total = List.fold_left (fun a (sz, _) -> BZ.add a (zt_of_n sz)) BZ.zero layout in
+      let large = BZ.gt total (BZ.of_int (1 lsl 26)) in
+      let heavy = function OpQuery | OpDump -> true | _ -> false in
+      let outs = run_case (n_of_string cs) layout (if large then List.filter (fun o -> not (heavy o)) ops else ops) in
+      let rec weave ops outs = match ops, outs with
+        | o :: r, _ when large && heavy o -> "skipped-large" :: weave r outs
+        | _ :: r, x :: xs -> show_out x :: weave r xs
+        | _, _ -> [] in
+      String.concat " | " (weave ops outs)
   | _ -> "BADCASE")
